@@ -22,6 +22,7 @@ Property theorems only (helper lemmas live in Proofs/).  Each theorem is followe
 facts below are re-established against what the source says now.
 -/
 import PolyplyVerif.Generated.Tables
+import PolyplyVerif.Generated.DnaTables
 import PolyplyVerif.Model.Dna
 import PolyplyVerif.Proofs.Dna
 
@@ -359,4 +360,38 @@ example : ((genParamsDsdna Tables.baseLibrary (.seqFile 1 101 ["DA5", "DC", "DG3
 example : ((genParamsDsdna Tables.baseLibrary (.seq ["DA5", "DC", "DG3"]) false).toOption.map
     (·.nodes.map (·.resname))) = some ["DA5", "DC", "DG3"] := by decide
 
+/-! ### Round 5: translator anchors of `gen_dna.py` (`Generated/DnaTables.lean`) and closure of the table -/
+
+/-- Translator anchor (round 5): the descending-resid traversal of the model steps by the constant the CURRENT source
+of `_dna_edge_iterator` compares the resid difference with (`rfl` for EVERY graph: it stops checking when the source
+says something else), the step is one residue, and the code reads exactly the two node attributes the model's
+nodes carry. -/
+theorem C19_anchor_iterator :
+    (∀ (g : RGraph) (first src : Nat), iterStep g first src =
+      match g.resid? src with
+      | none => none
+      | some rs =>
+        (g.neighbors src).findSome? fun nn =>
+          match g.resid? nn with
+          | none => none
+          | some rn =>
+            if rs = rn + DnaTables.iteratorStep then some (nn, false)
+            else if rn > rs && nn == first then some (nn, true)
+            else none) ∧
+    DnaTables.iteratorStep = 1 ∧ DnaTables.nodeAttrs = ["resid", "resname"] :=
+  ⟨fun _ _ _ => rfl, by decide, by decide⟩
+
+example : iterStep (strandGraph ["DA5", "DT", "DG3"] [] none) 2 2 = some (1, false) ∧
+    iterStep (strandGraph ["DA", "DT", "DG"] [] (some [("linktype", "circle")])) 2 0 = some (2, true) := by decide
+
+/-- The translated pairing table is closed under complement (every value is a key), has no repeated key and no
+fixed point, and covers exactly the twelve names of the specification: there is no residue name whose complement
+could not be complemented again.  `decide` on the translated literal. -/
+theorem C19_table_closed :
+    (Tables.baseLibrary.map (·.1)).Nodup ∧
+    (∀ kv ∈ Tables.baseLibrary, (lookup Tables.baseLibrary kv.2).isSome ∧ kv.2 ≠ kv.1) ∧
+    Tables.baseLibrary.length = 12 ∧ (∀ kv ∈ watsonCrick, (lookup Tables.baseLibrary kv.1) = some kv.2) := by
+  decide
+
+example : lookup Tables.baseLibrary "DA5" = some "DT3" ∧ lookup Tables.baseLibrary "DU" = none := by decide
 end PolyplyVerif.C19
